@@ -43,6 +43,26 @@ check("C07", "exploration", "runtime differential against the UTF-8 text at tran
       "Translation level: 10^4 (quick) generated YAML streams x encodings x BOM x slice/reader x explicit/detected. Re-encoder level: complete enumeration in every run of all UTF-16 units, all 1 048 576 surrogate pairs, all 1 112 064 UTF-32 scalars, both byte orders, BOM/no BOM, with varied input/output buffer sizes (2 variants quick, 11 thorough), plus every surrogate value in each ill-formed context, truncated units and out-of-range UTF-32 values.",
       "Exhaustive over characters, not over (character, buffer phase) combinations; reference decoder is char::decode_utf16 / char::from_u32.",
       "DESIGN.md 3/C07")
+check("C13", "exploration", "runtime monitor of the real release binary (exit status/signal, stdout, stderr; stdout a pipe, file or pseudo-terminal) against a CLI reference model, over all short argument vectors",
+      "Held on every process run executed (~1.1*10^4 quick): bounded-exhaustive over EVERY argument vector of length 0..2 (quick) / 0..3 (thorough) from a 48-token vocabulary, plus thousands of random longer vectors, with rotating stdin contents and stdout kinds.",
+      "The model tokenises argv with the lexopt crate and applies the manual's rules; translations are predicted by the library in-process. Unreadable files cannot be produced (the harness runs as root).",
+      "DESIGN.md 3/C13")
+check("C14", "exploration", "runtime differential: stdout/exit status of the real binary vs the library run in-process in the matching supply mode, over generated invocations",
+      "Held on every invocation executed (5*10^3 quick, 10^5 thorough): -f absent/each format x extension spellings in random letter case, multi-dot, none, misleading x contents of every format / several formats / invalid x regular file (mmap), FIFO, stdin, '-' twice, directory, missing x all targets.",
+      "Expected source format computed by the harness from the manual's rule (-f, last extension case-insensitively, detection); strace sample shows mmap vs read as evidence only.",
+      "DESIGN.md 3/C14")
+check("C15", "fault_enumeration", "runtime monitor of the real binary's stdout and exit status with the failing input at every position of 1-6 inputs",
+      "Held on every invocation executed (1.5*10^3 quick, 3*10^4 thorough): input sizes 5 B..4 MiB, 7 failure kinds, failing position 0..5 or none, all targets, stdout a pipe or a file; stdout must start with the complete translations of all earlier inputs.",
+      "How much of the failing input's own partial output appears is left open; expectations come from the library in-process.",
+      "DESIGN.md 3/C15")
+check("C16", "fault_enumeration", "fault injection at the process boundary: consumer closes the pipe after exactly k bytes; stdout on /dev/full; wait status and stderr observed",
+      "Held on every run executed: 13 closing points k (0 .. 5 pipe capacities) x 4 targets x 3 input layouts (so the failure is met in write, write_all, write_fmt and the per-input flush), always with more than 1 MiB of output remaining; 16 /dev/full runs below and above the buffer size; thorough adds closing points +-2 around buffer and pipe-capacity multiples.",
+      "Relies on the kernel's EPIPE semantics; a run where the consumer could not get k bytes is inconclusive.",
+      "DESIGN.md 3/C16")
+check("C18", "exploration", "runtime differential per nesting depth (slice vs readers, explicit and detected) in-process; wait status of debug and release binaries on their default stacks; MessagePack size calculator (hook) vs independent decoder",
+      "Held on every execution: 84 (format, shape, target) combinations x a +-6 window around each limit, 1000..1025, 10^4, 10^5 (10^6 thorough; YAML capped); ~900 binary runs (debug+release, file+stdin) at the limit, one beyond and far beyond; 2*10^4 size-calculator comparisons.",
+      "YAML depth is capped for CPU reasons (quadratic); one shared limit per format is demanded across shapes and targets that accept the document at all.",
+      "DESIGN.md 3/C18")
 
 for pid in ["C01","C03","C04","C05","C06","C07","C08","C09","C10","C11","C12","C13","C14","C15","C16","C17","C18"]:
     if pid not in CHECKS:
